@@ -42,7 +42,7 @@ def plan(tier):
 
 
 def ncases(tier):
-    return 250 if tier == "quick" else 4000
+    return 400 if tier == "quick" else 4000
 
 
 def gen_case(rng, i):
